@@ -109,14 +109,14 @@ def cexEnv : Env := { cfg := {}, cache := [], height := 7, txIndex := 0 }
 
 def cexReq : Ibtp := { frm := some s11, to := some s21, index := 1, typ := .interchain, timeout := 3, group := none }
 
-/-- The receipt is FAILED ("fee"), yet the interchain event survives (the request is announced to
-`c2` in the block's delivery set) and the transaction record written with the non-journaled
-`Add` survives the revert. Replayed on the real code by corpus/exec/c02-fee-failed-listed.ops. -/
+/-- The receipt is FAILED ("fee"), the contract store is restored by the revert (the record and
+the counters are gone), yet the interchain event survives: the request is announced to `c2` in the
+block's delivery set.  Replayed on the real code by corpus/exec/c02-fee-failed-listed.ops. -/
 theorem C02_counterexample_fee_failed_listed :
     (applyTx cexEnv cexLed (.ibtp "poor" cexReq .ok) none).2.rcpt = { ok := false, ret := "fee" } ∧
     (applyTx cexEnv cexLed (.ibtp "poor" cexReq .ok) none).2.events = [.interchain [("c2", false)]] ∧
-    (applyTx cexEnv cexLed (.ibtp "poor" cexReq .ok) none).1.getS (.txRec { frm := s11, to := s21, index := 1 })
-      = some (.trec { height := 10, status := .begin }) := by
+    (applyTx cexEnv cexLed (.ibtp "poor" cexReq .ok) none).1.getS (.txRec { frm := s11, to := s21, index := 1 }) = none ∧
+    (applyTx cexEnv cexLed (.ibtp "poor" cexReq .ok) none).1.getS (.ic s11) = none := by
   decide
 
 theorem C02_rejected_no_effect_false : ¬ C02_rejected_no_effect := by
